@@ -5,6 +5,8 @@ import PdfVerif.Model.Xref
 
 namespace PdfVerif.Xref
 
+open PdfVerif.Gen.Xref
+
 /-! ### `revreadlines`: specification by a single right-to-left pass -/
 
 /-- `(head, segments)`: the bytes before the first EOL byte, then one segment per EOL byte, each
@@ -208,7 +210,8 @@ def encodeRows (w1 w2 w3 : Nat) : List Row → Bytes
 default that `nunpack` supplies. -/
 def Fits (w dflt v : Nat) : Prop := (w = 0 ∧ v = dflt) ∨ (0 < w ∧ v < 256 ^ w)
 
-def FitsRow (w1 w2 w3 : Nat) (r : Row) : Prop := Fits w1 1 r.1 ∧ Fits w2 0 r.2.1 ∧ Fits w3 0 r.2.2
+def FitsRow (w1 w2 w3 : Nat) (r : Row) : Prop :=
+  Fits w1 typeDefault r.1 ∧ Fits w2 field2Default r.2.1 ∧ Fits w3 field3Default r.2.2
 
 theorem length_bePack (w v : Nat) : (bePack w v).length = w := by
   induction w generalizing v with
@@ -308,6 +311,9 @@ theorem row_encodeRows (ranges : List (Nat × Nat)) (w1 w2 w3 : Nat) (rows : Lis
     exact drop_len_append' _ _ _ (by simp [length_bePack])
   rw [hd, nunpack_bePack _ _ _ h1, nunpack_bePack _ _ _ h2, nunpack_bePack _ _ _ h3]
 
+theorem rowType_eq_row (x : XStream) (i : Nat) : x.rowType i = (x.row i).1 := by
+  simp [XStream.rowType, XStream.row, objidsTypeDefault, typeDefault]
+
 /-! Range-by-range specification of `/Index`: the first `c` rows belong to the first range. -/
 
 def rowSpec : List (Nat × Nat) → List Row → Nat → Option Row
@@ -380,7 +386,7 @@ theorem objidsAux_spec (ranges : List (Nat × Nat)) (w1 w2 w3 : Nat) (rows : Lis
       have hic : i < c := List.mem_range.mp hi
       have hlt : idx + i < rows.length := by omega
       have hget : rows[idx + i]? = some rows[idx + i] := List.getElem?_eq_getElem hlt
-      rw [row_encodeRows allr w1 w2 w3 rows (idx + i) _ hget (hf _ (List.getElem_mem hlt))]
+      rw [rowType_eq_row, row_encodeRows allr w1 w2 w3 rows (idx + i) _ hget (hf _ (List.getElem_mem hlt))]
       simp [List.getElem?_drop, hget]
     · simp [List.drop_drop]
 
